@@ -129,10 +129,16 @@ func fuzzParser(f *testing.F, names ...string) {
 	})
 }
 
-func FuzzURI(f *testing.F)    { fuzzParser(f, "URI.Parse", "URI.Parse-nohost", "URI.Update", "ParseURI", "Request-accessors") }
-func FuzzCookie(f *testing.F) { fuzzParser(f, "Cookie.ParseBytes", "RequestHeader.Cookie", "ResponseHeader.Set-Cookie") }
-func FuzzArgs(f *testing.F)   { fuzzParser(f, "Args.ParseBytes", "HasAcceptEncoding", "ParseContentLength") }
-func FuzzRange(f *testing.F)  { fuzzParser(f, "ParseByteRange", "IfModifiedSince") }
+func FuzzURI(f *testing.F) {
+	fuzzParser(f, "URI.Parse", "URI.Parse-nohost", "URI.Update", "ParseURI", "Request-accessors")
+}
+func FuzzCookie(f *testing.F) {
+	fuzzParser(f, "Cookie.ParseBytes", "RequestHeader.Cookie", "ResponseHeader.Set-Cookie")
+}
+func FuzzArgs(f *testing.F) {
+	fuzzParser(f, "Args.ParseBytes", "HasAcceptEncoding", "ParseContentLength")
+}
+func FuzzRange(f *testing.F) { fuzzParser(f, "ParseByteRange", "IfModifiedSince") }
 func FuzzTrailer(f *testing.F) {
 	fuzzParser(f, "Trailer.SetTrailers")
 }
